@@ -554,8 +554,10 @@ class Mutations:
 
         mutate_attr, mutate_param = hp_config.sample()
 
-        if mutate_param.value is None:
-            mutate_param.value = getattr(individual, mutate_attr)
+        # NOTE: The individual's own attribute is the base of the mutation. The value kept in the
+        # configuration is only a cache of it and may be stale, e.g. when one RLParameter is used
+        # under several names or the configuration comes from another (already mutated) agent.
+        mutate_param.value = getattr(individual, mutate_attr)
 
         # Randomly grow or shrink hyperparameters by specified factors
         new_value = mutate_param.mutate()
